@@ -314,27 +314,30 @@ def run_check(prop, tier, master, workers=None, runs_override=None):
     workers = workers or int(os.environ.get("VERIF_WORKERS", "0")) or os.cpu_count()
     scen = mod.SCENARIOS
     wsum = sum(scen.values())
-    plan = []
-    for name, w in scen.items():
-        n = max(1, total * w // wsum)
-        chunk = max(1, min(cfg.get("chunk", 50), n // (workers * 2) or 1))
-        idx = list(range(n))
-        for c in range(0, n, chunk):
-            plan.append((name, idx[c:c + chunk]))
-    # determinism spot check: some runs are executed twice, in different chunks
-    recheck = []
-    for name, w in scen.items():
-        n = max(1, total * w // wsum)
+    # chunks are generated lazily, round-robin over the scenarios, until `total` runs
+    # are planned or the wall budget is used up (thorough tiers are budget-bound)
+    shares = {name: max(1, total * w // wsum) for name, w in scen.items()}
+    chunk = {name: max(1, min(cfg.get("chunk", 50), n // (workers * 2) or 1))
+             for name, n in shares.items()}
+    recheck = {}
+    for name, n in shares.items():
         k = min(n, max(2, cfg.get("recheck", 8)))
-        step = max(1, n // k)
-        picks = list(range(0, n, step))[:k]
-        recheck.append((name, picks))
-    jobs = [(prop, name, master, idx, cfg.get("chunk_wall", 240),
-             frozenset(p for nm, picks in recheck if nm == name for p in picks))
-            for name, idx in plan]
-    jobs += [(prop, name, master, picks, cfg.get("chunk_wall", 240), frozenset(picks))
-             for name, picks in recheck]
-    n_main = len(plan)
+        # early indices, so that they are certainly executed even if the budget ends the run
+        recheck[name] = list(range(0, min(n, 50 * k), max(1, min(n, 50 * k) // k)))[:k]
+    wall_cap = cfg.get("chunk_wall", 240)
+
+    def main_jobs():
+        pos = {name: 0 for name in shares}
+        while any(pos[name] < shares[name] for name in shares):
+            for name in shares:
+                if pos[name] < shares[name]:
+                    a = pos[name]
+                    b = min(shares[name], a + chunk[name])
+                    pos[name] = b
+                    yield ("main", (prop, name, master, list(range(a, b)), wall_cap,
+                                    frozenset(p for p in recheck[name] if a <= p < b)))
+        for name, picks in recheck.items():
+            yield ("recheck", (prop, name, master, picks, wall_cap, frozenset(picks)))
 
     total_agg = {
         "runs": 0, "stats": collections.Counter(), "fired": collections.Counter(),
@@ -348,17 +351,32 @@ def run_check(prop, tier, master, workers=None, runs_override=None):
     stopped_early = False
     known = load_known()
     n_unknown = 0
+    max_unknown = int(os.environ.get("VERIF_MAX_UNKNOWN", cfg.get("max_unknown_violations", 25)))
+    gen = main_jobs()
+    pending = {}
+    rechecks_submitted = False
     with concurrent.futures.ProcessPoolExecutor(workers, mp_context=ctx) as pool:
-        futs = {pool.submit(_worker_chunk, j): k for k, j in enumerate(jobs)}
-        try:
-            for fut in concurrent.futures.as_completed(futs):
-                k = futs[fut]
-                if fut.cancelled():
-                    continue
+        def refill():
+            nonlocal rechecks_submitted
+            while len(pending) < workers * 3:
+                try:
+                    kind, job = next(gen)
+                except StopIteration:
+                    return
+                if stopped_early and kind == "main":
+                    continue          # budget used up: only the rechecks are still wanted
+                pending[pool.submit(_worker_chunk, job)] = kind
+        refill()
+        broken = False
+        while pending and not broken:
+            done, _ = concurrent.futures.wait(pending, return_when=concurrent.futures.FIRST_COMPLETED)
+            for fut in done:
+                kind = pending.pop(fut)
                 try:
                     agg = fut.result()
                 except concurrent.futures.process.BrokenProcessPool:
                     harness_errors.append("worker died (wall cap or crash)")
+                    broken = True
                     break
                 except HarnessError as e:
                     harness_errors.append(str(e))
@@ -366,10 +384,10 @@ def run_check(prop, tier, master, workers=None, runs_override=None):
                 except Exception as e:
                     harness_errors.append("".join(traceback.format_exception(e)))
                     continue
-                target = digests_a if k < n_main else digests_b
+                target = digests_a if kind == "main" else digests_b
                 for i, d in agg["digests"].items():
                     target[(agg["scenario"], i)] = d
-                if k >= n_main:
+                if kind != "main":
                     continue        # recheck chunks do not count as coverage
                 total_agg["runs"] += agg["runs"]
                 total_agg["evaluations"] += agg["evaluations"]
@@ -383,22 +401,23 @@ def run_check(prop, tier, master, workers=None, runs_override=None):
                 total_agg["sim_time"] += agg["sim_time"]
                 total_agg["wall"] += agg["wall"]
                 for key in ("schedules", "states", "nontrivial"):
-                    total_agg[key] |= agg[key]
+                    if len(total_agg[key]) < 3_000_000:      # memory bound of the parent
+                        total_agg[key] |= agg[key]
+                    else:
+                        total_agg["stats"]["distinct-count-saturated/" + key] = 1
                 total_agg["violations"].extend(agg["violations"])
                 n_unknown += sum(1 for v in agg["violations"]
                                  if not any(finding_matches(e, prop, v) for e in known))
-                if n_unknown >= int(os.environ.get("VERIF_MAX_UNKNOWN", cfg.get("max_unknown_violations", 25))) and not stopped_early:
-                    stopped_early = True        # enough to report; do not burn the budget
-                    for f2 in futs:
-                        f2.cancel()
                 if len(total_agg["samples"]) < 3:
                     total_agg["samples"].extend(agg["samples"])
-                if time.perf_counter() - t_start > wall_budget and not stopped_early:
-                    stopped_early = True
-                    for f2 in futs:
-                        f2.cancel()
-        except KeyboardInterrupt:
-            raise
+                if n_unknown >= max_unknown or time.perf_counter() - t_start > wall_budget:
+                    stopped_early = True      # enough to report / budget used up
+            if harness_errors and len(harness_errors) > 20:
+                break
+            refill()
+        if broken:
+            for f in pending:
+                f.cancel()
     nondet = [(k, digests_a[k], digests_b[k]) for k in digests_b
               if k in digests_a and digests_a[k] != digests_b[k]]
     if nondet:
